@@ -78,7 +78,7 @@ class BlockNet(Engine):
                 steps.append({'t': t, 'prio': rng.randint(0, 2), 'party': validator, 'op': 'checktx',
                               'args': {'tx': self.gen_valid_tx(rng), 'rule': rng.choice(['none', 'tx-vin-empty', 'tx-vout-empty', 'value-negative', 'value-toolarge', 'total-toolarge',
                                                                                          'duplicate-input', 'null-prevout', 'cb-script-1', 'cb-script-101', 'cb-script-2', 'cb-script-100',
-                                                                                         'value-max', 'total-max', 'tx-oversize']),
+                                                                                         'value-max', 'total-max', 'tx-oversize', 'huge-witness', 'stripped-at-limit-with-witness', 'stripped-at-limit']),
                                        'r': [rng.randrange(1 << 30) for _ in range(4)], 'mutable': rng.random() < 0.5}})
         return {'engine': self.name, 'property': [prop], 'config': {'parties': parties}, 'steps': steps}
 
@@ -617,6 +617,19 @@ class BlockNet(Engine):
             tx['vin'] = [{'hash': BR.NULL_HASH, 'n': 0xffffffff, 'script': 'aa' * n, 'seq': 0xffffffff}]
         elif rule == 'tx-oversize':
             tx['vout'].append({'value': 0, 'script': '6a' + '00' * (1000001 - len(RW.enc_tx(tx, False)))})
+        elif rule == 'huge-witness':
+            # small stripped size, witness so large that 3*stripped + total exceeds four million
+            tx['wit'] = [['00' * (4000100 + r[0] % 1000)]] + [[] for _ in tx['vin'][1:]]
+        elif rule in ('stripped-at-limit-with-witness', 'stripped-at-limit'):
+            tx['vout'].append({'value': 0, 'script': ''})
+            for _ in range(6):
+                d = 1000000 - len(RW.enc_tx(tx, False))
+                if d == 0:
+                    break
+                sc = tx['vout'][-1]['script']
+                tx['vout'][-1]['script'] = sc + '00' * d if d > 0 else sc[:2 * d]
+            if rule.endswith('witness'):
+                tx['wit'] = [['11' * (1 + r[1] % 600)]] + [[] for _ in tx['vin'][1:]]
         want = BR.check_tx(tx, RC.TABLE[chain]['max_money'])
         obj = conv.tx_from_spec(tx, a['mutable'])
         try:
